@@ -173,6 +173,11 @@ fn process_dir(
 
     let mut ret = 0;
 
+    // walkdir clamps min_depth to max_depth; an empty depth range selects nothing.
+    if config.min_depth > config.max_depth {
+        return ret;
+    }
+
     // Slightly yucky loop handling here :-(. See docs for
     // WalkDirIterator::skip_current_dir for explanation.
     let mut it = walkdir.into_iter();
